@@ -320,31 +320,70 @@ func (p *Program) goSites(prefix string) []GoSite {
 	return out
 }
 
-// peelThinWrapper: a function whose whole body is one call of a repository function followed by
-// return (a closure adapting a signature) stands for that function.
+// peelThinWrapper: a function whose body is one call of a repository function — possibly followed
+// by inert reporting of its result (branching on it, logging, formatting) — stands for that
+// function: a closure adapting a signature, or "go func(){ if err := f(c); err != nil { log(err) } }()".
+// Nothing else may happen in it: no defer, go, panic, send, store outside its own frame.
 func peelThinWrapper(f *ssa.Function) *ssa.Function {
 	for d := 0; d < 3 && f != nil; d++ {
-		if len(f.Blocks) != 1 {
+		if f.Blocks == nil {
 			return f
 		}
 		var only *ssa.Function
 		n := 0
-		for _, ins := range f.Blocks[0].Instrs {
-			switch x := ins.(type) {
-			case *ssa.Call:
-				n++
-				only = staticCallee(x.Common())
-			case *ssa.Return, *ssa.DebugRef, *ssa.UnOp, *ssa.FieldAddr, *ssa.MakeInterface, *ssa.ChangeInterface, *ssa.ChangeType:
-			default:
-				return f
+		for _, b := range f.Blocks {
+			for _, ins := range b.Instrs {
+				switch x := ins.(type) {
+				case *ssa.Call:
+					if inertCall(x.Common()) {
+						continue
+					}
+					n++
+					only = staticCallee(x.Common())
+				case *ssa.Store:
+					if _, local := x.Addr.(*ssa.IndexAddr); !local {
+						if al, ok := x.Addr.(*ssa.Alloc); !ok || al.Heap {
+							return f
+						}
+					} else if al, ok := x.Addr.(*ssa.IndexAddr).X.(*ssa.Alloc); !ok || al.Comment != "varargs" {
+						return f
+					}
+				case *ssa.Alloc:
+					if x.Heap && x.Comment != "varargs" {
+						return f
+					}
+				case *ssa.Return, *ssa.DebugRef, *ssa.UnOp, *ssa.FieldAddr, *ssa.MakeInterface, *ssa.ChangeInterface, *ssa.ChangeType,
+					*ssa.If, *ssa.Jump, *ssa.Extract, *ssa.BinOp, *ssa.Phi, *ssa.Slice, *ssa.IndexAddr, *ssa.Convert:
+				default:
+					return f
+				}
 			}
 		}
 		if n != 1 || only == nil || only.Blocks == nil || !inRepo(only) {
 			return f
 		}
+		if len(f.Blocks) > 1 && len(f.Blocks) > 4 {
+			return f
+		}
 		f = only
 	}
 	return f
+}
+
+// inertCall: reporting only — the logger, fmt, errors, and Error() on an error value.
+func inertCall(cc *ssa.CallCommon) bool {
+	if cc.IsInvoke() {
+		return cc.Method.Name() == "Error" && cc.Method.Type().(*types.Signature).Params().Len() == 0
+	}
+	cal := staticCallee(cc)
+	if cal == nil || cal.Pkg == nil {
+		return false
+	}
+	switch path := cal.Pkg.Pkg.Path(); {
+	case path == "fmt", path == "errors", strings.HasSuffix(path, "go-logger/log"):
+		return true
+	}
+	return false
 }
 
 // repoReach returns the repository functions reachable from the given functions following
